@@ -235,10 +235,15 @@ func c17Eval(cfg []string, x string) (*fw.Finding, bool) {
 	p := parserFor(cfg)
 	_, f, ok := canonTwice(p, x)
 	if f != nil {
-		f.Class += ":" + profileClass(cfg)
-		// subject for known-finding matching: the decoded query pairs of the input as the default parser sees it
-		if u, err := c16Default.Parse(x); err == nil {
-			f.Subject = pairsString(model.ParseURLEncoded(u.Query()))
+		if f.Class == "c17:second-pass-fails" {
+			// subject for known-finding matching: the canonical string that is rejected
+			f.Subject, _, _ = canonTwice(p, x)
+		} else {
+			f.Class += ":" + profileClass(cfg)
+			// subject for known-finding matching: the decoded query pairs of the input as the default parser sees it
+			if u, err := c16Default.Parse(x); err == nil {
+				f.Subject = pairsString(model.ParseURLEncoded(u.Query()))
+			}
 		}
 		f.Detail = "[" + cfgName(cfg) + "] " + f.Detail
 	}
